@@ -45,6 +45,7 @@ pub fn decode(bytes: &[u8]) -> Case {
     let cfg = ConvCfg {
         max_named: 4,
         force_cmds: true,
+        usage_fallback: true,
         ..ConvCfg::default()
     };
     let level = gen_conv_level(&mut u, &mut names, &cfg, 1);
@@ -211,6 +212,9 @@ impl Prop for C08 {
                 (MOut::Outside(_), _) => return Verdict::Skip("outside the quantifier"),
                 (MOut::Value(a), Outcome::Value(b)) if a == b => {}
                 (MOut::Reject(_), Outcome::Stderr(t)) if !t.trim().is_empty() => {}
+                // fallback_to_usage on a level that got no item: usage of that level
+                (MOut::Help { path, .. }, Outcome::Stdout { text, .. })
+                    if text.starts_with(&format!("Usage: {}", path.join(" "))) => {}
                 (MOut::Value(a), o) => {
                     return Verdict::fail(
                         "sentence-rejected-or-wrong-value",
